@@ -1,7 +1,7 @@
 (* C05Theorems.v — the property theorems of C05 and nothing else.  Each is closed by `exact <lemma>`
    and followed by Print Assumptions (audited by ./check on every run). *)
 From V.lib Require Import Base.
-From V.c05 Require Import C05Model C05OptProofs.
+From V.c05 Require Import C05Model C05FragModel C05OptProofs C05HistProofs.
 
 (* OptimizeTfhdTrun, then encode/decode of the trun (structure level: wire_trun), then
    AddSampleDefaultValues with ANY trex (or none) gives back exactly the samples of the trun, for all
@@ -27,6 +27,66 @@ Theorem C05_optimize_pinned_refuted : exists tf tr tx tf' tr',
 Proof. exact optimize_pinned_refuted. Qed.
 Print Assumptions C05_optimize_pinned_refuted.
 
+(* ---------------------------------------------------------------- histories (fold over the op list) *)
+(* CreateFragment(seq,T) followed by ANY sequence of the six add operations (those addressing another track id
+   return an error and change nothing; a history ends at a panic, which is excluded by `Some fr`): the fragment
+   still has its single traf and single trun with write-order number 0, and the trun holds exactly the samples
+   of the accepted operations, in order. *)
+Theorem C05_history_inv_single : forall T ops cs fr,
+  run_ops (create_fragment T) ops = (cs, Some fr) ->
+  fr_next fr = 1 /\
+  exists dt ex, fr_trafs fr = [mkTraf (create_tfhd T) dt [canon 0 (added1 T ops)] ex].
+Proof. exact history_inv_single. Qed.
+Print Assumptions C05_history_inv_single.
+
+(* CreateMultiTrackFragment(seq,tracks) with pairwise different ids followed by any sequence of
+   AddFullSampleToTrack /\
+ AddSampleToTrack (fewer than 2^32): there is a list rr of runs (maximal groups of
+   consecutive additions to one track, latest first) such that nextTrunNr = number of runs, every traf holds
+   exactly one trun per run of its track (mk_truns: write-order number = index of the run, samples = the
+   run's samples), and the concatenation of a traf's truns is the list of samples added to its track in order
+   (additions to unknown ids are errors and add nothing). *)
+Theorem C05_history_inv : forall tracks ops cs fr,
+  NoDup tracks -> N.of_nat (length ops) < 4294967296 -> forallb to_track_op ops = true ->
+  run_ops (create_multi tracks) ops = (cs, Some fr) ->
+  exists rr : runs,
+    fr_next fr = lenN rr /\
+    map track_of (fr_trafs fr) = tracks /\
+    (forall t, In t (fr_trafs fr) ->
+       tf_truns t = mk_truns (track_of t) rr /\
+       flat_map tr_samples (tf_truns t) = added_multi tracks (track_of t) ops).
+Proof. exact history_inv_multi. Qed.
+Print Assumptions C05_history_inv.
+
+(* on ANY fragment, a history of AddFullSample /\
+ AddFullSampleToTrack leaves in mdat the concatenation of the
+   data of the accepted operations in op order (no data parts appear, the lazy size stays 0) *)
+Theorem C05_history_mdat : forall ops fr cs fr',
+  forallb is_full ops = true -> run_ops fr ops = (cs, Some fr') ->
+  md_data (fr_mdat fr') = md_data (fr_mdat fr) ++ flat_map op_data (accepted cs ops) /\
+  md_parts (fr_mdat fr') = md_parts (fr_mdat fr) /\
+  (md_lazy (fr_mdat fr) = 0 -> md_lazy (fr_mdat fr') = 0).
+Proof. exact history_full_mdat. Qed.
+Print Assumptions C05_history_mdat.
+
+(* C05_offsets, full statement (NOT proved; explored by the data-offset oracle of the search and by the model
+   correspondence on every data offset): after set_offsets, the trun with write-order number k has data offset
+   moof_size + mdat header + total size of the runs 0..k-1, provided that value is below 2^31 (int32 cast;
+   beyond it the real code wraps silently: known finding C05-F5).
+   Proved part: single-track fragments (one run): the data offset is moof size + the header size of the mdat
+   as it will be written (16 for payloads above 4 GiB, fix a7c3604), under the int32 guard. *)
+Theorem C05_offsets_partial : forall T ops cs fr,
+  run_ops (create_fragment T) ops = (cs, Some fr) ->
+  let m := md_size_touch (fr_mdat fr) in
+  moof_size fr + md_header_size m < 2147483648 ->
+  exists dt ex,
+    set_offsets fr =
+      fr_with fr [mkTraf (create_tfhd T) dt
+                    [tr_with_doff (canon 0 (added1 T ops)) (Z.of_N (moof_size fr + md_header_size m))] ex]
+              m (fr_next fr).
+Proof. exact offsets_single. Qed.
+Print Assumptions C05_offsets_partial.
+
 (* the hypotheses are satisfiable by a non-trivial value: three samples, first flags differ, cto all zero *)
 Example C05_optimize_resolve_ex :
   let tr := mkTrun 1 3841 0 0 [mkSample 33554432 10 7 0; mkSample 16842752 10 5 0; mkSample 16842752 10 5 0] 0 in
@@ -35,3 +95,17 @@ Example C05_optimize_resolve_ex :
     Ok (mkTfhd 131112 1 0 1 10 0 16842752,
         mkTrun 1 517 0 33554432 (tr_samples tr) 0).
 Proof. vm_compute. repeat split; try reflexivity. lia. Qed.
+
+(* a non-trivial history satisfying the hypotheses of C05_history_inv: three tracks, alternating runs, one unknown id *)
+Example C05_history_inv_ex :
+  let s k := mkSample 16842752 10 k 0 in
+  let ops := [OFullTo 2 (s 1) 0 [1]; OFullTo 2 (s 2) 10 [2;3]; OFullTo 1 (s 1) 0 [4]; OMetaTo 9 (s 1) 0;
+              OFullTo 2 (s 1) 20 [5]; OFullTo 3 (s 0) 0 []] in
+  NoDup [1; 2; 3] /\ forallb to_track_op ops = true /\
+  exists fr, run_ops (create_multi [1; 2; 3]) ops = ([COk; COk; COk; CErr; COk; COk], Some fr) /\
+             fr_next fr = 4 /\
+             map (fun t => map tr_won (tf_truns t)) (fr_trafs fr) = [[1]; [0; 2]; [3]].
+Proof.
+  split; [repeat constructor; cbn; intuition congruence|]. split; [reflexivity|].
+  eexists. split; [vm_compute; reflexivity|]. split; reflexivity.
+Qed.
